@@ -584,14 +584,52 @@ Proof.
     + rewrite O1 by congruence. reflexivity.
 Qed.
 
+(* composition of "rows added" over the entries of the row *)
+Lemma rows_added_cons R m m1 m' r e rest :
+  appended R m m1 (fst e) (Z.of_nat r, snd e) -> rows_added R m1 m' r rest -> rows_added R m m' r (e :: rest).
+Proof.
+  intros (W1 & MC1 & MR1 & CS1 & A1 & O1) (W' & MC & MR & CSZ & CS).
+  split; [exact W'|]. split; [congruence|]. split; [congruence|]. split; [congruence|].
+  intros j Hj. rewrite CS by (rewrite MC1; exact Hj). unfold newcol. simpl filter.
+  destruct (Nat.eqb_spec (fst e) j) as [E|Hne].
+  - subst j. rewrite A1. simpl. rewrite <- app_assoc. reflexivity.
+  - rewrite O1 by congruence. reflexivity.
+Qed.
+
+(* the repaired loop of matrix_addrow *)
+Lemma append_fixed_ok extra_mat R r ents : forall m m', WFr R m -> r < R -> Forall (fun e => fst e < mcols m) ents ->
+  append_fixed extra_mat r ents m = Ok m' -> rows_added R m m' r ents.
+Proof.
+  induction ents as [|e ents IH]; intros m m' W Hr Hc H.
+  - simpl in H. inversion H; subst m'. split; [exact W|]. repeat (split; [reflexivity|]). intros j Hj. unfold newcol. simpl. rewrite app_nil_r. reflexivity.
+  - inversion Hc as [|? ? Hj Hc']; subst. cbn [append_fixed] in H. set (j := fst e) in *.
+    assert (He : (0 <= fst (Z.of_nat r, snd e) < Z.of_nat R)%Z) by (simpl; lia).
+    destruct (Nat.eqb_spec (cntj m j) 0) as [C0|C0].
+    + destruct (Nat.leb_spec (msize m) (begj m j)); [discriminate|].
+      destruct (fill_empty_ok R m j _ W Hj C0 He) as (A & _).
+      eapply rows_added_cons; [exact A|]. pose proof A as (W1 & MC1 & _). apply IH; [exact W1|exact Hr|rewrite MC1; exact Hc'|exact H].
+    + destruct (Nat.ltb_spec (begj m j + cntj m j) (msize m)) as [Hlt|Hge]; cbn [andb] in H.
+      * destruct (Z.eqb_spec (ind_at m (begj m j + cntj m j)) FREE) as [F|F].
+        -- destruct (in_place_ok R m j _ W Hj ltac:(lia) Hlt F He) as (A & _).
+           eapply rows_added_cons; [exact A|]. pose proof A as (W1 & MC1 & _). apply IH; [exact W1|exact Hr|rewrite MC1; exact Hc'|exact H].
+        -- destruct (Nat.leb_spec (cntj m j + 2) (mfree m)); [|eapply repack_ok; eauto].
+           unfold bind in H. destruct (relocate m j (begj m j) (cntj m j) (Z.of_nat r, snd e)) as [m1| |] eqn:E1; try discriminate.
+           destruct (relocate_ok R m j _ m1 W Hj ltac:(lia) He E1) as (A & _).
+           eapply rows_added_cons; [exact A|]. pose proof A as (W1 & MC1 & _). apply IH; [exact W1|exact Hr|rewrite MC1; exact Hc'|exact H].
+      * destruct (Nat.leb_spec (cntj m j + 2) (mfree m)); [|eapply repack_ok; eauto].
+        unfold bind in H. destruct (relocate m j (begj m j) (cntj m j) (Z.of_nat r, snd e)) as [m1| |] eqn:E1; try discriminate.
+        destruct (relocate_ok R m j _ m1 W Hj ltac:(lia) He E1) as (A & _).
+        eapply rows_added_cons; [exact A|]. pose proof A as (W1 & MC1 & _). apply IH; [exact W1|exact Hr|rewrite MC1; exact Hc'|exact H].
+Qed.
+
 Lemma col_slots_set_rows m r j : col_slots (set_rows m r) j = col_slots m j.
 Proof. reflexivity. Qed.
 
 Lemma WFr_set_rows R m r : WFr R m -> WFr R (set_rows m r).
 Proof. intros W. destruct W. constructor; assumption. Qed.
 
-Theorem mat_addrow_ok extra_mat m ents m' :
-  WF m -> mat_addrow extra_mat m ents = Ok m' ->
+Theorem mat_addrow_ok extra_mat fixed m ents m' :
+  WF m -> mat_addrow extra_mat fixed m ents = Ok m' ->
   WF m' /\ mcols m' = mcols m /\ mrows m' = S (mrows m) /\ colsize m' = colsize m /\
   forall j, j < mcols m -> col_slots m' j = newcol m (mrows m) ents j.
 Proof.
@@ -600,10 +638,11 @@ Proof.
   { apply Forall_forall. intros e He. rewrite forallb_forall in V. apply Nat.ltb_lt. apply V. exact He. }
   assert (W1 : WFr (S (mrows m)) m) by (apply (WFr_mono (mrows m)); [lia|exact W]).
   unfold bind.
-  destruct (if delta m ents <? mfree m then fold_left (append_step (mrows m)) ents (Ok m) else repack extra_mat m (mrows m) ents) as [m1| |] eqn:E; try discriminate.
+  destruct (if delta m ents <? mfree m then (if fixed then append_fixed extra_mat (mrows m) ents m else fold_left (append_step (mrows m)) ents (Ok m))
+            else repack extra_mat m (mrows m) ents) as [m1| |] eqn:E; try discriminate.
   intros H; inversion H; subst m'; clear H.
   assert (RA : rows_added (S (mrows m)) m m1 (mrows m) ents).
-  { destruct (delta m ents <? mfree m); [apply fold_append_ok; try assumption; lia|eapply repack_ok; eauto]. }
+  { destruct (delta m ents <? mfree m); [destruct fixed; [eapply append_fixed_ok; eauto|apply fold_append_ok; try assumption; lia]|eapply repack_ok; eauto]. }
   destruct RA as (W' & MC & MR & CSZ & CS).
   split; [unfold WF; simpl; apply WFr_set_rows; exact W'|]. split; [exact MC|]. split; [reflexivity|]. split; [exact CSZ|].
   intros j Hj. rewrite col_slots_set_rows. apply CS. exact Hj.
